@@ -35,7 +35,9 @@ var denseNums = []string{"0", "1", "-1", "10", "0.5", "0.000000476837158203125",
 	"9007199254740992", "9007199254740993", "-9007199254740993", "18446744073709551616", "18446744073709551617",
 	"12345678901234567890123456789012345678", "12345678901234567890123456789012345679", "0.0000001", "0.00000011",
 	// other notations, each of a value of its own (no two entries are equal as numbers)
-	"2", "20.0", "200", "3", "300.00", "30", "1e2", "1E3", "0040", "4", "5.50", "55", "7e-1", "07", "8.0e0", "80", "1.50e1", "150e-2"}
+	"2", "20.0", "200", "3", "300.00", "30", "1e2", "1E3", "0040", "4", "5.50", "55", "7e-1", "07", "8.0e0", "80", "1.50e1", "150e-2",
+	// signed exponents and a leading plus sign in the exponent
+	"6e+1", "6.5E+2", "9E+0", "11e+1", "1.25e+3", "13E-1"}
 
 func denseValues(ty string, c c13Dense) []model.AV {
 	if ty == "N" {
